@@ -242,7 +242,10 @@ def cmdOptPass (args : List String) : String :=
       let M' := if pass == "simplify" then A.simplifyElse else if pass == "remove" then A.removeInaccessible else A
       let same := M'.sameTable B
       let diff := match M'.firstDiff B with | some i => toString i | none => "-"
-      s!"ok same={same} det={A.deterministic} detAfter={B.deterministic} sizes={A.states.size}/{M'.states.size}/{B.states.size} start={M'.start}/{B.start} diff={diff}"
+      -- hypothesis of C05_remove_states_preserves for the set the mirror keeps (and: the start state is kept)
+      let keep := A.reachable
+      let closed := pass != "remove" || (A.closedUnder keep && goodB A keep A.start && decide (0 ≤ (A.start : Int)) && keep.getD A.start false)
+      s!"ok same={same} det={A.deterministic} closed={closed} detAfter={B.deterministic} sizes={A.states.size}/{M'.states.size}/{B.states.size} start={M'.start}/{B.start} diff={diff}"
     | .error e, _ => s!"error parseA {e}"
     | _, .error e => s!"error parseB {e}"
   | _ => "error bad-args"
